@@ -16,6 +16,13 @@ pub fn check(sc: &Scenario, ex: &mut Exec) -> (Verdict, Option<String>) {
         Some(q) if q.plain.is_none() && q.raw_sql.is_none() => q.clone(),
         _ => return (Verdict::Skip("no_query_spec".into()), None),
     };
+    if q.from.iter().any(|f| f.kind == "RIGHT JOIN") {
+        // an outer join that preserves rows of a public table without protected partner: such rows
+        // belong to no privacy unit and the tracked relation leaves them out (their scale factor
+        // is NULL). The statement quantifies over joins along the privacy-unit path; this shape
+        // is generated for the other properties only.
+        return (Verdict::Skip("unitless_rows_preserved_by_outer_join".into()), None);
+    }
     if q.keys.iter().any(|k| k.public_set.is_none()) {
         return (Verdict::Skip("private_keys".into()), None);
     }
